@@ -15,3 +15,13 @@ func simHook(point, key string) {
 		f(point, key)
 	}
 }
+
+// SimOrderClients lets the harness own the sync.Map iteration order of the REST clients.
+var SimOrderClients func([]string) []string
+
+func simOrderClients(uuids []string) []string {
+	if f := SimOrderClients; f != nil {
+		return f(uuids)
+	}
+	return uuids
+}
